@@ -21,6 +21,10 @@ pub struct Case {
     pub script: Vec<u64>,
     /// how many selections to perform with the same selector value
     pub draws: u8,
+    /// a second population (usually of another size) that the same selector value is asked to select
+    /// from in alternation with the first: whatever a selector remembers between calls must not leak
+    #[serde(default)]
+    pub second: Option<Vec<Vec<i64>>>,
 }
 
 pub fn population<R: Res + From<i64>>(results: &[Vec<i64>], sum: impl Fn(&[i64]) -> R) -> Pop<R> {
@@ -39,9 +43,12 @@ pub fn population<R: Res + From<i64>>(results: &[Vec<i64>], sum: impl Fn(&[i64])
         .collect()
 }
 
-fn check<R: Res + From<i64>>(case: &Case, pop: &Pop<R>, probe: &mut Probe) -> Result<(), Fail> {
+fn check<R: Res + From<i64>>(case: &Case, pop: &Pop<R>, second: Option<&Pop<R>>, probe: &mut Probe) -> Result<(), Fail> {
+    let first_pop = pop;
+    let first_lens: Vec<usize> = case.results.iter().map(Vec::len).collect();
+    let second_lens: Vec<usize> = case.second.as_ref().map(|s| s.iter().map(Vec::len).collect()).unwrap_or_default();
     let n = pop.len();
-    let lens: Vec<usize> = case.results.iter().map(Vec::len).collect();
+    let lens = first_lens.clone();
     let selector = match guarded(|| build::<R>(&case.spec)) {
         Err(p) => fail!(format!("construction/panic:{}", panic_key(&p)), "building {:?} panicked: {p}", case.spec),
         Ok(Err(_overflow)) => {
@@ -50,9 +57,16 @@ fn check<R: Res + From<i64>>(case: &Case, pop: &Pop<R>, probe: &mut Probe) -> Re
         }
         Ok(Ok(s)) => s,
     };
-    let allowed = possible(&case.spec, n, &lens);
+    let first_allowed = possible(&case.spec, n, &lens);
+    let second_allowed = second.map(|p| possible(&case.spec, p.len(), &second_lens));
     let mut rng = ScriptRng::new(&case.script, 0xC06);
-    for draw in 0..case.draws.max(1) {
+    let total_draws = if second.is_some() { case.draws.max(1) * 2 } else { case.draws.max(1) };
+    for draw in 0..total_draws {
+        // alternate between the two populations when there are two
+        let (pop, n, lens, allowed) = match (second, &second_allowed) {
+            (Some(p2), Some(a2)) if draw % 2 == 1 => (p2, p2.len(), &second_lens, a2),
+            _ => (first_pop, first_pop.len(), &first_lens, &first_allowed),
+        };
         let r = guarded(|| selector.select(pop, &mut rng).map_err(|e| (e.kind(), e.to_string(), format!("{e:?}"))));
         match r {
             Err(p) => fail!(
@@ -101,7 +115,10 @@ fn check<R: Res + From<i64>>(case: &Case, pop: &Pop<R>, probe: &mut Probe) -> Re
         }
     }
     let boundary = n <= 1 || has_boundary(&case.spec, n, lens.iter().copied().min().unwrap_or(0));
-    probe.nontrivial = case.spec.depth() >= 2 || boundary;
+    probe.nontrivial = case.spec.depth() >= 2 || boundary || second.is_some();
+    if second.is_some() {
+        probe.label("one selector value alternating between two populations");
+    }
     if case.spec.depth() >= 3 {
         probe.label("composite depth >= 3");
     }
@@ -131,10 +148,12 @@ fn wb(w: &WSpec, n: usize, m: usize) -> bool {
 pub fn oracle(case: &Case, probe: &mut Probe) -> Result<(), Fail> {
     if case.errors {
         let pop = population::<ErrRes<i64>>(&case.results, |r| ErrRes(r.iter().sum()));
-        check(case, &pop, probe)
+        let second = case.second.as_ref().map(|s| population::<ErrRes<i64>>(s, |r| ErrRes(r.iter().sum())));
+        check(case, &pop, second.as_ref(), probe)
     } else {
         let pop = population::<Score<i64>>(&case.results, |r| Score(r.iter().sum()));
-        check(case, &pop, probe)
+        let second = case.second.as_ref().map(|s| population::<Score<i64>>(s, |r| Score(r.iter().sum())));
+        check(case, &pop, second.as_ref(), probe)
     }
 }
 
@@ -202,6 +221,10 @@ pub fn results_strategy(max_n: usize) -> BoxedStrategy<Vec<Vec<i64>>> {
         .boxed()
 }
 
+fn max_n_of(n: usize) -> usize {
+    (n + 4).max(6)
+}
+
 pub fn strategy(max_n: usize) -> BoxedStrategy<Case> {
     results_strategy(max_n)
         .prop_flat_map(|results| {
@@ -213,20 +236,22 @@ pub fn strategy(max_n: usize) -> BoxedStrategy<Case> {
                 spec_strategy(n, m, 3),
                 prop::collection::vec(any::<u64>(), 0..20),
                 1u8..4,
+                prop_oneof![3 => Just(None), 1 => results_strategy(max_n_of(n)).prop_map(Some)],
             )
         })
-        .prop_map(|(results, errors, spec, script, draws)| Case {
+        .prop_map(|(results, errors, spec, script, draws, second)| Case {
             results,
             errors,
             spec,
             script,
             draws,
+            second,
         })
         .boxed()
 }
 
 pub fn run(ctx: &mut Ctx) {
-    ctx.rule = "populations of 0..12 individuals with ragged / all-equal / duplicate-laden result vectors (Score and Error polarity); selector spec trees (depth <= 4) over Best, Worst, Random, Tournament(k around n), Lexicase(c around the result count), static WeightedPair trees, DynWeighted lists, references and erased boxes, weights incl. 0 and u32::MAX; generated random stream, 1-3 draws per selector value. Oracle: pointer identity with an element of the population; errors only of the four documented kinds and only when a small model of the spec justifies them; must-fail configurations must fail. non-trivial = composite depth >= 2 or a boundary configuration; distinct by JSON encoding".into();
+    ctx.rule = "populations of 0..12 individuals with ragged / all-equal / duplicate-laden result vectors (Score and Error polarity); selector spec trees (depth <= 4) over Best, Worst, Random, Tournament(k around n), Lexicase(c around the result count), static WeightedPair trees, DynWeighted lists, references and erased boxes, weights incl. 0 and u32::MAX; generated random stream, 1-3 draws per selector value, in a quarter of the cases alternating between two populations of different sizes and result counts. Oracle: pointer identity with an element of the population; errors only of the four documented kinds and only when a small model of the spec justifies them; must-fail configurations must fail. non-trivial = composite depth >= 2 or a boundary configuration; distinct by JSON encoding".into();
     ctx.assumptions.push("with more configured lexicase cases than results, Ok(member) is also accepted (the filter may reach one survivor first)".into());
     let n = ctx.tier.pick(300_000u32, 6_000_000);
     ctx.run_prop("selections", n, || strategy(12), oracle);
